@@ -275,6 +275,18 @@ def check_join(r) -> list[Fail]:
         B, apsB = build_fragment(dict(r["B"], aps=r["B"]["aps"][:1]), cls, "b")
     fails: list[Fail] = []
     check_one_join(A, B, apsA[0], apsB[0], _kw(r), cls, f"join[{deg or 'general'}]", fails)
+    if not fails and r.get("again") and not deg:
+        # the same fragment objects, edited in place by their owner, joined again: the product is built from their current state
+        A.translate([0.4, -1.1, 2.3])
+        B.coords = np.asarray(B.coords) @ _proper_R(r["A"]["pose"] + 1)
+        A.atoms[0].label = "edited"
+        if A.n_bonds:
+            A.bonds[0].attrib["edited"] = True
+        A.charge = A.charge + 1
+        n0 = len(fails)
+        check_one_join(A, B, apsA[0], apsB[0], _kw(r), cls, "join[again after in-place edits of A and B]", fails)
+        for f_ in fails[n0:]:
+            f_.sig += ":second-join-after-in-place-edit"
     return fails
 
 
@@ -309,7 +321,7 @@ def strat_join(tier):
         "charge": st.one_of(st.none(), st.none(), st.just(0), st.integers(-3, 3)), "mult": st.one_of(st.none(), st.integers(1, 5)),
         "name": st.one_of(st.none(), st.just("product")),
         "btype": st.one_of(st.none(), st.sampled_from([1, 2, 3, 20, 99])), "bstereo": st.sampled_from([0, 10, 11]), "bforder": st.sampled_from([1.0, 1.5, 2.0]),
-        "degenerate": st.sampled_from([None, None, None, "parallel", "antiparallel", "axis"]),
+        "degenerate": st.sampled_from([None, None, None, "parallel", "antiparallel", "axis"]), "again": st.booleans(),
     })
 
 
